@@ -321,6 +321,6 @@ func init() {
 		Real:        []string{"smtp.Server.Serve/handleConn", "smtp.Conn command loop, handleData, handleDataLMTP", "dataReader", "lineLimitReader", "net/textproto", "bufio"},
 		Stub:        []string{"net.Listener (SimListener)", "net.Conn (SimConn)", "Backend/Session/LMTPSession (SimBackend)", "clock (synctest)", "SMTP client (raw driver)"},
 		Assumptions: []string{"acceptance of the message itself is not judged here (C06 does)", "go-smtp built with go1.26.8"},
-		QuickRuns:   100000, ThoroughRuns: 3000000,
+		QuickRuns:   300000, ThoroughRuns: 6000000,
 	})
 }
